@@ -474,6 +474,195 @@ def check_dense_meaning(inp):
         return [f'{kind}: as_matrix differs from the word semantics']
     return []
 
+
+# ------------------------------------------------------------------------------------------- C03 / C19 arithmetic
+
+def _obj_from_json(j, kind):
+    import pytenet as ptn
+    cls = ptn.MPS if kind == 'mps' else ptn.MPO
+    x = cls(np.array(j['qd'], dtype=int), [np.array(q, dtype=int) for q in j['qD']], fill='postpone')
+    A = [np.array(a, dtype=complex) for a in j['A']]
+    x.A = [a.real.copy() if np.all(a.imag == 0) else a for a in A]
+    return x
+
+
+def _dense(x, kind):
+    from refs import dense as DN
+    if kind == 'mps':
+        return np.array(DN.dense_mps(x.A), dtype=complex)
+    return np.array(DN.dense_mpo(x.A), dtype=complex)
+
+
+def _invariant(x, kind, what):
+    fails = []
+    if not isinstance(x.qd, np.ndarray) or any(not isinstance(q, np.ndarray) for q in x.qD):
+        fails.append(f'{what}: quantum numbers are not stored as NumPy arrays')
+        return fails
+    L = len(x.A)
+    if len(x.qD) != L + 1:
+        return [f'{what}: len(qD) != nsites + 1']
+    for i in range(L):
+        A = x.A[i]
+        if kind == 'mps':
+            if A.shape != (len(x.qd), len(x.qD[i]), len(x.qD[i + 1])):
+                fails.append(f'{what}: A[{i}].shape {A.shape} does not match the quantum-number lists')
+            else:
+                fails += qsparse_fail(A, [x.qd, x.qD[i], -x.qD[i + 1]], f'{what}.A[{i}]')
+        else:
+            if A.shape != (len(x.qd), len(x.qd), len(x.qD[i]), len(x.qD[i + 1])):
+                fails.append(f'{what}: A[{i}].shape {A.shape} does not match the quantum-number lists')
+            else:
+                fails += qsparse_fail(A, [x.qd, -x.qd, x.qD[i], -x.qD[i + 1]], f'{what}.A[{i}]')
+    return fails
+
+
+def _snapshot(objs):
+    return [(copy.deepcopy(o.qd), [q.copy() for q in o.qD], [a.copy() for a in o.A]) for o in objs]
+
+
+def _same(objs, snap):
+    for o, (qd, qD, A) in zip(objs, snap):
+        if not np.array_equal(o.qd, qd) or len(o.qD) != len(qD) or any(not np.array_equal(a, b) for a, b in zip(o.qD, qD)):
+            return False
+        if len(o.A) != len(A) or any(a.shape != b.shape or not np.array_equal(a, b) for a, b in zip(o.A, A)):
+            return False
+    return True
+
+
+def _mutate_result(res):
+    """follow-up mutation of a result: must never reach the operands"""
+    for a in res.A:
+        a *= 0
+        a += 7
+    res.zero_qnumbers()
+    res.qd += 3
+    for q in res.qD:
+        q += 5
+
+
+def random_arith_input(rng, op, L, d=2, Dmax=3):
+    import pytenet as ptn
+    qd = rng.integers(-1, 2, size=d)
+    kinds = dict(add_mps=('mps', 'mps'), add_mpo=('mpo', 'mpo'), multiply_mpo=('mpo', 'mpo'), apply_operator=('mpo', 'mps'))[op]
+    ql = rng.integers(-1, 2, size=1); qr = rng.integers(-1, 2, size=1)
+    out = dict(op=op, form=int(rng.integers(0, 3)), alpha=float(rng.standard_normal()))
+    for k, kind in enumerate(kinds):
+        D = [1] + [int(rng.integers(1, Dmax + 1)) for _ in range(L - 1)] + [1]
+        qD = [ql] + [rng.integers(-1, 2, size=D[i]) for i in range(1, L)] + [qr]
+        x = (ptn.MPS if kind == 'mps' else ptn.MPO)(qd, qD, fill='random', rng=rng)
+        out[f'x{k}'] = dict(qd=qd.tolist(), qD=[q.tolist() for q in qD], A=[a.tolist() for a in x.A])
+    return out
+
+
+@check('arith')
+def check_arith(inp):
+    import pytenet as ptn
+    from pytenet.mps import add_mps, merge_mps_tensor_pair, split_mps_tensor
+    from pytenet.mpo import add_mpo
+    from pytenet.operation import apply_operator
+    op = inp['op']
+    fails = []
+    try:
+        if op in ('add_mps', 'add_mpo'):
+            kind = 'mps' if op == 'add_mps' else 'mpo'
+            x0, x1 = _obj_from_json(inp['x0'], kind), _obj_from_json(inp['x1'], kind)
+            snap = _snapshot([x0, x1])
+            form = inp.get('form', 2)
+            if form == 0:
+                res = x0 + x1; a = 1
+            elif form == 1:
+                res = x0 - x1; a = -1
+            else:
+                a = inp['alpha']; res = (add_mps if kind == 'mps' else add_mpo)(x0, x1, a)
+            ref = _dense(x0, kind) + a * _dense(x1, kind)
+            got = _dense(res, kind)
+            operands_ = [x0, x1]; rk = kind
+        elif op == 'multiply_mpo':
+            x0, x1 = _obj_from_json(inp['x0'], 'mpo'), _obj_from_json(inp['x1'], 'mpo')
+            snap = _snapshot([x0, x1])
+            res = x0 @ x1
+            ref = _dense(x0, 'mpo') @ _dense(x1, 'mpo'); got = _dense(res, 'mpo')
+            operands_ = [x0, x1]; rk = 'mpo'
+        elif op == 'apply_operator':
+            x0, x1 = _obj_from_json(inp['x0'], 'mpo'), _obj_from_json(inp['x1'], 'mps')
+            snap = _snapshot([x0, x1])
+            res = apply_operator(x0, x1)
+            ref = _dense(x0, 'mpo') @ _dense(x1, 'mps'); got = _dense(res, 'mps')
+            operands_ = [x0, x1]; rk = 'mps'
+        elif op == 'identity':
+            qd = np.array(inp['qd'], dtype=int)
+            res = ptn.MPO.identity(qd, inp['L'], scale=inp['scale'])
+            got = _dense(ptn.MPO.identity(qd, inp['L']), 'mpo'); ref = np.identity(len(qd) ** inp['L'])
+            gs = _dense(res, 'mpo')
+            if not close(gs, gs[0, 0] * np.identity(gs.shape[0]), abs(gs[0, 0])):
+                fails.append('scaled identity MPO is not proportional to the identity')
+            operands_ = []; snap = []; rk = 'mpo'
+            qd0 = qd.copy(); res.zero_qnumbers()
+            if not np.array_equal(qd, qd0):
+                fails.append('identity MPO aliases its qd argument')
+            res = ptn.MPO.identity(qd, inp['L'], scale=inp['scale'])
+        elif op == 'dense_forms':
+            W, psi = _obj_from_json(inp['x0'], 'mpo'), _obj_from_json(inp['x1'], 'mps')
+            if not close(psi.as_vector(), _dense(psi, 'mps')) or not close(W.as_matrix(), _dense(W, 'mpo')):
+                fails.append('as_vector / as_matrix differ from the explicit contraction')
+            if not close(W.as_matrix(sparse_format=True).toarray(), _dense(W, 'mpo')):
+                fails.append('sparse matrix form differs from the dense form')
+            return fails
+        elif op == 'chained':
+            A, B, C = (_obj_from_json(inp[k], 'mpo') for k in ('x0', 'x1', 'x2'))
+            psi = _obj_from_json(inp['x3'], 'mps')
+            res = apply_operator((A + B) @ C, psi)
+            ref = (_dense(A, 'mpo') + _dense(B, 'mpo')) @ _dense(C, 'mpo') @ _dense(psi, 'mps')
+            got = _dense(res, 'mps'); operands_ = []; snap = []; rk = 'mps'
+        elif op == 'from_vector':
+            v = np.array(inp['v'], dtype=float)
+            v0 = v.copy()
+            psi = ptn.MPS.from_vector(inp['d'], inp['nsites'], v, tol=0)
+            fails += _invariant(psi, 'mps', 'from_vector result')
+            if fails:
+                return fails
+            if not close(_dense(psi, 'mps'), v0, float(np.max(np.abs(v0))) if v0.size else 1):
+                fails.append('from_vector(tol=0) does not reproduce the vector')
+            if not np.array_equal(v, v0):
+                fails.append('from_vector modified its argument')
+            try:
+                psi.orthonormalize(mode='left')
+            except Exception as e:
+                fails.append(f'orthonormalize after from_vector raised {type(e).__name__}: {e}')
+            return fails
+        elif op == 'split':
+            A = np.array(inp['A'], dtype=complex)
+            if np.all(A.imag == 0):
+                A = A.real.copy()
+            A0_ = A.copy()
+            qd0, qd1 = np.array(inp['qd0'], dtype=int), np.array(inp['qd1'], dtype=int)
+            qD = [np.array(q, dtype=int) for q in inp['qD']]
+            B0, B1, qb = split_mps_tensor(A, qd0, qd1, qD, inp['distr'], tol=0)
+            if not close(merge_mps_tensor_pair(B0, B1), A0_, float(np.max(np.abs(A0_))) if A0_.size else 1):
+                fails.append('merge(split(A, tol=0)) != A')
+            if not np.array_equal(A, A0_):
+                fails.append('split_mps_tensor modified its argument')
+            if len(qb) != B0.shape[2]:
+                fails.append('len(qbond) != new bond dimension')
+            else:
+                fails += qsparse_fail(B0, [qd0, qD[0], -np.asarray(qb)], 'A0') + qsparse_fail(B1, [qd1, np.asarray(qb), -qD[1]], 'A1')
+            return fails
+        else:
+            return [f'unknown op {op}']
+    except Exception as e:
+        return [f'{op} raised {type(e).__name__}: {e}']
+    sc = float(np.max(np.abs(ref))) if ref.size else 1.0
+    if got.shape != ref.shape or not close(got, ref, sc):
+        fails.append(f'{op}: dense form of the result differs from the dense expression of the operands')
+    fails += _invariant(res, rk, 'result')
+    if operands_:
+        if not _same(operands_, snap):
+            fails.append(f'{op} modified an operand')
+        _mutate_result(res)
+        if not _same(operands_, snap):
+            fails.append(f'mutating the result of {op} changed an operand (shared state)')
+    return fails
+
 # -------------------------------------------------------------------------------------------
 
 def main():
